@@ -50,9 +50,18 @@ func genC05(g *Gen) {
 			}
 		}
 	}
+	// the same stream whatever the server's log level (the dumps a Debug / Trace logger asks for
+	// are made from the packet that is then written)
+	g.emit("c05run", "debug", "0", listStr([]string{"F2x100", "E2x300", "X3x4097"}))
+	g.emit("c05run", "trace", "0", listStr([]string{"F2x100", "E2x300", "X3x4097"}))
+	// frame lengths across the boundaries of the BER length encoding (contents of 2^16 +- a few octets)
+	g.emit("c05run", "plain", "0", listStr([]string{"S48x65490", "F3x100", "S48x65490", "E2x4097"}))
 	// write timeouts (WithWriteTimeout): frames larger than the socket buffers to a client that
 	// reads in bursts, with a timeout short enough to expire inside a write and one that never does
 	g.emit("c05run", "wt:150:60", "0", listStr([]string{"F1x8388608", "F3x100", "E1x8388608", "F2x4097"}))
+	g.emit("c05run", "wt:100:30", "0", listStr([]string{"E1x16777000", "F3x100", "F1x8388608"}))
+	g.emit("c05run", "wt:250:100", "0", listStr([]string{"F1x12582912", "E2x4097", "E1x8388608"}))
+	g.emit("c05run", "wt:60:25", "0", listStr([]string{"F2x8388608", "F3x100"}))
 	g.emit("c05run", "wt:20000:5", "0", listStr([]string{"F1x8388608", "F3x100", "E1x2000000", "F2x4097"}))
 	if g.tier == "thorough" {
 		var ws []string
@@ -93,6 +102,11 @@ func runC05(t *Toks) string {
 	// wt:<ms>:<pause>: WithWriteTimeout(ms) on a plain listener; the client reads 256 KiB, pauses
 	// <pause> ms, reads again: writes time out with part of a frame taken.  A Write that returned
 	// nil has put a whole frame on the wire; after a Write that failed nothing but the torn tail follows
+	// debug / trace: a plain listener whose server logs at that level
+	if transport == "debug" || transport == "trace" {
+		opts += " loglevel=" + transport
+		transport = "plain"
+	}
 	wtMode, wtPause := false, 0
 	if strings.HasPrefix(transport, "wt:") {
 		var ms int
